@@ -1056,15 +1056,34 @@ int main(int argc, char** argv) {
 
     struct sigaction sa; sa.sa_handler = on_alarm; sigemptyset(&sa.sa_mask); sa.sa_flags = 0; sigaction(SIGPROF, &sa, 0);
     std::string line;
+    // bounded cost of hangs and crashes: after the FIRST overrun of a call form that form is not driven any more in this process
+    // ("SKIPPED-FORM"); after 6 overruns in all the stream stops ("SKIPPED-STREAM" for every remaining case); after 4 crashes of
+    // a form (forked cases) that form is not driven any more.  The check confirms overruns by running the case alone (argv[2] = "solo":
+    // no caps) and reports skipped cases as not executed, never as passed.
+    bool solo = argc > 2 && std::string(argv[2]) == "solo";
+    std::map<std::string, int> overruns, crashes;
+    int total_overruns = 0;
+    static std::string cur_form;                 // static: read after the siglongjmp
     while (std::getline(std::cin, line)) {
         std::istringstream is(line);
         std::string kind, t; is >> kind;
         if (!is) continue;
         Args a; while (is >> t) a.push_back(t);
-        if (sigsetjmp(jb, 1)) { std::cout << "TIMEOUT" << std::endl; continue; }
+        {   // the call form of the case: kind + the operation / form word of that kind
+            const Args b = (kind == "fork" && a.size() > 2) ? Args(a.begin() + 2, a.end()) : a;
+            const std::string k2 = (kind == "fork" && a.size() > 1) ? a[1] : kind;
+            size_t w = (k2 == "ring" || k2 == "poly" || k2 == "modru" || k2 == "ext") ? 2 : (k2 == "lcg" || k2 == "int" || k2 == "qf" || k2 == "gf2ref" || k2 == "gmpshare") ? 0 : (k2 == "rm") ? 1 : (size_t) -1;
+            cur_form = k2 + ((w != (size_t) -1 && w < b.size()) ? "/" + b[w] : "") + (k2 == "int" && b.size() > 1 ? "/" + b[1].substr(0, 1) : "");
+        }
+        if (sigsetjmp(jb, 1)) { ++overruns[cur_form]; ++total_overruns; std::cout << "TIMEOUT" << std::endl; continue; }
+        if (!solo && total_overruns >= 6) { std::cout << "SKIPPED-STREAM" << std::endl; continue; }
+        if (!solo && (overruns[cur_form] >= 1 || crashes[cur_form] >= 4)) { std::cout << "SKIPPED-FORM " << cur_form << std::endl; continue; }
         if (kind == "fork") {
             if (a.size() < 2) { std::cout << "BAD-LINE\n"; continue; }
-            std::cout << in_child(atol(a[0].c_str()), a[1], Args(a.begin() + 2, a.end())) << "\n";
+            std::string out = in_child(atol(a[0].c_str()), a[1], Args(a.begin() + 2, a.end()));
+            if (out == "TIMEOUT") { ++overruns[cur_form]; ++total_overruns; }
+            else if (out.compare(0, 5, "CRASH") == 0) ++crashes[cur_form];
+            std::cout << out << "\n";
             continue;
         }
         arm((kind == "lcg" || kind == "ext" || kind == "gfqx" || kind == "gfqxchk") ? limit_ms + 5000 : limit_ms);     // GivRandom draws have no loop; long sequences need time to print
